@@ -306,7 +306,11 @@ func greaseStanza(r *h.Rand) *age.Stanza {
 	if s.Type == "X25519" || s.Type == "scrypt" || s.Type == "ssh-rsa" || s.Type == "ssh-ed25519" {
 		s.Type += "x"
 	}
-	for j := r.Intn(3); j > 0; j-- {
+	nargs := r.Intn(3)
+	if r.Intn(8) == 0 {
+		nargs = 3 + r.Intn(12) // anything a recipient returns is written out: many arguments too
+	}
+	for j := nargs; j > 0; j-- {
 		s.Args = append(s.Args, validStr(r))
 	}
 	if b := r.Bytes(h.Pick(r, bodyLens)); len(b) > 0 {
